@@ -10,6 +10,7 @@ import ToastyVerif.Gen.Samplers
 import ToastyVerif.Model.Publish
 import ToastyVerif.Gen.Paths
 import ToastyVerif.Model.Pixels
+import ToastyVerif.Model.Cascade
 
 namespace Driver
 
@@ -362,6 +363,25 @@ def handlePx (op : String) (a : List String) : String :=
     | _, _, _ => "bad-op"
   | _, _ => "bad-op"
 
+/-! ### cascade index map: which stored child pixels feed stored parent pixel (i, j) -/
+
+def handleCasc (op : String) (a : List String) : String :=
+  match op, a with
+  | "map", [sign, i, j, present] =>
+    match sign.toInt?, i.toNat?, j.toNat? with
+    | some sign, some i, some j =>
+      -- child k's stored pixel (r, c) is tagged k*65536 + r*256 + c; `present` is a 4-character 0/1 string
+      let pres := present.toList.map (· == '1')
+      let ch : Nat → Option Pixels.Img := fun k =>
+        if pres.getD k false then some (fun r c => [some ((k * 65536 + r * 256 + c : Nat) : Int)]) else none
+      let g : PixelBase.Px → PixelBase.Px → PixelBase.Px → PixelBase.Px → PixelBase.Px := fun a b c d => a ++ b ++ c ++ d
+      let px := Cascade.merged g (Cascade.mosaic Pixels.F64 (Cascade.slicesFor sign) ch) i j
+      " ".intercalate (px.map fun c => match c with
+        | some v => let v := v.toNat; s!"{v / 65536}:{v % 65536 / 256}:{v % 256}"
+        | none => "-")
+    | _, _, _ => "bad-op"
+  | _, _ => "bad-op"
+
 def handle (toks : List String) : String :=
   match toks with
   | "gen" :: op :: args => match ints args with
@@ -377,6 +397,7 @@ def handle (toks : List String) : String :=
   | "pub" :: op :: args => handlePub op args
   | "path" :: op :: args => handlePath op args
   | "px" :: op :: args => handlePx op args
+  | "casc" :: op :: args => handleCasc op args
   | _ => "bad-op"
 
 end Driver
